@@ -775,6 +775,19 @@ func drawNormCase(s src, r *regime) NormCase {
 			c.Code = "0" + c.Code[1:]
 		}
 	}
+	// France: a valid SIREN written on its own (9 digits) is completed by the
+	// normaliser with its two key digits; a third of those start with zeros
+	if r.key == "fr" && s.n("bare_siren", 3) == 0 {
+		body := digitsN(s, 8)
+		switch s.n("leading_zeros", 3) {
+		case 0:
+			body = "0" + body[1:]
+		case 1:
+			body = "00" + body[2:]
+		}
+		chk, _ := luhnCheck(body)
+		c.Kind, c.Code = "bare-siren", body+d1(chk)
+	}
 	c.Formatted, c.Variant = formatCode(s, r, c.Code)
 	return c
 }
